@@ -340,6 +340,9 @@ def first_diff(a, b):
         only_b = [w for w in wb if w not in set(wa)][:4]
         only_a = [w for w in wa if w not in set(wb)][:4]
         return ' [first differing line: baseline-only words %s, other-only words %s]' % (only_a, only_b)
+    if not minus and not plus:
+        i = next((j for j, (x, y) in enumerate(zip(la, lb)) if x != y), min(len(la), len(lb)))
+        return ' [the same lines in another order or number; first difference at line %d: baseline %r, other %r]' % (i + 1, short(la[i]) if i < len(la) else None, short(lb[i]) if i < len(lb) else None)
     return ' [baseline-only line %r, other-only line %r]' % (short(minus[0]) if minus else None, short(plus[0]) if plus else None)
 
 
